@@ -156,7 +156,14 @@ func (x *Exec) tr(env *Env, e Expr) Val {
 		c := x.trBool(env, e.C)
 		a := x.tr(env, e.A)
 		b := x.tr(env, e.B)
-		return Val{T: Ite(c, a.T, b.T), Ty: a.Ty}
+		if a.T.Sort == "Nil" && b.Ty != nil {
+			a.T = x.nilOf(env, b.Ty)
+			a.Ty = b.Ty
+		}
+		if b.T.Sort == "Nil" && a.Ty != nil {
+			b.T = x.nilOf(env, a.Ty)
+		}
+		return Val{T: x.share(Ite(c, a.T, b.T)), Ty: a.Ty}
 	case EBin:
 		return x.trBin(env, e)
 	case EQuant:
@@ -391,6 +398,9 @@ func (x *Exec) trBin(env *Env, e EBin) Val {
 	}
 	l := x.tr(env, e.L)
 	r := x.tr(env, e.R)
+	if l.T.Sort == "Any" || r.T.Sort == "Any" {
+		return Val{T: True, Ty: tyBool}
+	}
 	if l.T.Sort == "Nil" && r.T.Sort == "Nil" {
 		env.fail("nil compared with nil")
 	}
@@ -574,7 +584,46 @@ func (x *Exec) trCall(env *Env, e ECall) Val {
 				return ev.Args[i]
 			}
 		}
-		env.fail("no event %s", s.V)
+		return Val{T: Term{"any", "Any"}}
+	case "mapV", "mapP":
+		m := x.tr(env, e.Args[0])
+		if e.Fn == "mapV" {
+			return Val{T: readArr(x.heap(env.st, "MV!", SSlice), m.T, "(Array Str Slice)")}
+		}
+		return Val{T: readArr(x.heap(env.st, "MP!", SBool), m.T, "(Array Str Bool)")}
+	case "at":
+		as := args()
+		es := elemSortOfHeap(as[0].T.Sort)
+		v := Val{T: Select(as[0].T, as[1].T, es)}
+		if es == SSlice {
+			v.Ty = types.NewSlice(tyStr)
+		} else if es == SBool {
+			v.Ty = tyBool
+		}
+		return v
+	case "upd":
+		as := args()
+		return Val{T: Store(as[0].T, as[1].T, as[2].T)}
+	case "addr":
+		v := x.tr(env, e.Args[0])
+		if v.Addr == nil {
+			env.fail("addr(): %s is not addressable", exprString(e.Args[0]))
+		}
+		return Val{T: *v.Addr, Ty: types.NewPointer(v.Ty)}
+	case "emitted":
+		// value at the point where the middleware is done: right before the
+		// wrapped handler is invoked, or at return if it is not invoked
+		if env.st.atServe == nil {
+			return x.tr(env, e.Args[0])
+		}
+		n := env.child()
+		o := &State{vals: env.st.vals, heaps: copyHeaps(env.st.atServe), names: env.st.names, entry: env.st.entry, events: env.st.events}
+		n.st = o
+		v := x.tr(n, e.Args[0])
+		for _, f := range o.pc {
+			env.st.assume(f)
+		}
+		return v
 	case "streq":
 		as := args()
 		return Val{T: x.strEq(as[0].T, as[1].T), Ty: tyBool}
@@ -720,12 +769,7 @@ func (x *Exec) goFuncAppFn(env *Env, qn string, f *ssa.Function, sel string, arg
 	var r Val
 	if c.Inline {
 		cenv := x.calleeEnv(env.st, c, f, args)
-		b, ok := c.Ensures[0].E.(EBin)
-		if !ok || b.Op != "==" {
-			env.fail("inline function %s: ensures must be 'result == E'", qn)
-		}
-		r = x.tr(cenv, b.R)
-		r.Ty = rt
+		r = x.inlineDef(cenv, qn, c, rt)
 	} else {
 		r = x.pureApp(env.st, qn, f, c, args, env.st.heaps, rt)
 		// instantiate the contract for ground applications
@@ -811,6 +855,14 @@ func (x *Exec) applySpecFn(env *Env, sf *SpecFn, args []Val) Val {
 	if sf.Uninter {
 		var sorts []Sort
 		var ts []Term
+		for _, h := range sf.Reads {
+			ht := x.heap(env.st, h, heapElemSort(h))
+			if x.isFrozen(h) {
+				ht = x.entryHeap(env.st, h, heapElemSort(h))
+			}
+			sorts = append(sorts, ht.Sort)
+			ts = append(ts, ht)
+		}
 		for _, a := range args {
 			sorts = append(sorts, a.T.Sort)
 			ts = append(ts, a.T)
@@ -827,6 +879,7 @@ func (x *Exec) applySpecFn(env *Env, sf *SpecFn, args []Val) Val {
 		}
 		v := x.tr(n, sf.Body)
 		v.Ty = rt
+		v.T = x.share(v.T)
 		return v
 	}
 	// recursive: uninterpreted symbol + definitional axiom over the current heaps
@@ -866,6 +919,33 @@ func (x *Exec) applySpecFn(env *Env, sf *SpecFn, args []Val) Val {
 		x.axioms[fn] = append(x.axioms[fn], ax)
 	}
 	return Val{T: App(fn, rs, ts...), Ty: rt}
+}
+
+// heapElemSort recovers the element sort of a heap from its name
+// (F!<struct>!<field>, E!<sort>, C!<sort>, MP!, MV!).
+func heapElemSort(h string) Sort {
+	switch {
+	case h == "MP!":
+		return SBool
+	case h == "MV!":
+		return SSlice
+	case strings.HasPrefix(h, "E!") || strings.HasPrefix(h, "C!"):
+		return Sort(h[2:])
+	case strings.HasPrefix(h, "F!"):
+		parts := strings.SplitN(h[2:], "!", 2)
+		if len(parts) == 2 {
+			for _, si := range theProg.structInfo {
+				if si.Named == parts[0] {
+					for _, f := range si.Fields {
+						if cleanName(f.Name) == parts[1] {
+							return f.Sort
+						}
+					}
+				}
+			}
+		}
+	}
+	panic(unsupported{"unknown heap " + h})
 }
 
 func copyHeaps(h map[string]Term) map[string]Term {
